@@ -29,8 +29,10 @@ func (o *c35) step(line string) string {
 	// the statement's premises, evaluated on the state before the call
 	pre := !s.poisoned
 	seen := map[int]bool{}
+	certPos := map[int]int{}
 	var missing []int
 	for k, i := range vb.certIdx {
+		certPos[i] = k
 		if seen[i] {
 			pre = false // Verify rejects blocks that repeat a chunk
 		}
@@ -56,7 +58,12 @@ func (o *c35) step(line string) string {
 			if tok == "S" {
 				break
 			}
-			if j, err := strconv.Atoi(tok); err == nil && j == want && o.validAt(vb, j) {
+			j, err := strconv.Atoi(tok)
+			if tok == "P" && s.peerHolds(want) && vb.blk.ChunkCerts[certPos[want]].Expiry == s.u.get(want).chunk.Expiry {
+				// the peer node holds the chunk (pending or accepted) and is asked under the right slot
+				j, err = want, nil
+			}
+			if err == nil && j == want && o.validAt(vb, j) {
 				found = true
 				if s.verifier.Verify(s.u.get(j).chunk) != nil {
 					beyond++
@@ -137,6 +144,13 @@ func TestVerifC35(t *testing.T) {
 		// lagging validator: it missed chunk 1 and its block, meanwhile it stored newer pending chunks
 		// of the same producer up to exactly its pending-weight limit (355+282 = 637), resp. beyond
 		// it; the chunk required by the accepted block must still be fetched and stored.
+		// lagging validator fetching from a peer that is ahead: the peer accepted chunk 1 (expiry 3) and
+		// later blocks (minimum slot 9 > 3); it still holds the chunk and its real handler serves it
+		vCfg(12, 1000000), "paddlocal 1", "paddlocal 4", "psetmin 2 1", "psetmin 9", "mk 1 0 2 1 1", "accept 1 P", "abs",
+		vCfg(12, 1000000), "paddlocal 2", "mk 1 0 2 1 2 1", "accept 1 P P 1", "abs", "paddlocal 1", "accept 1 P P",
+		// a certified chunk larger than InitialChunkSize travels through the real typed client
+		vCfg(12, 1000000), "mk 1 0 2 1 14 1", "accept 1 E 14 1", "abs",
+		vCfg(12, 1000000), "paddlocal 14", "psetmin 5 14", "psetmin 20", "mk 1 0 2 1 14", "accept 1 P", "abs",
 		// known finding: verifier minimum 0, window 5; block at 3 references chunk 2 (expiry 6 <= 3+5):
 		// valid at the block, "future" for the chunk verifier, so the fetch can never succeed
 		vCfg(5, 1000000), "mk 1 0 3 1 2", "accept 1 2 2 2", "abs",
@@ -186,6 +200,28 @@ func TestVerifC35(t *testing.T) {
 			}
 			o.step(fmt.Sprintf("rate %d", 1+rng.Intn(vValid)))
 		}
+		// the peer node: holds some chunks as pending, some as accepted, and may be far ahead
+		usePeer := rng.Chance(40)
+		if usePeer {
+			var padded []int
+			for _, i := range vCertified {
+				if rng.Chance(45) {
+					o.step(fmt.Sprintf("paddlocal %d", i))
+					padded = append(padded, i)
+				}
+			}
+			pm := m
+			for k := rng.Intn(3); k > 0 && len(padded) > 0; k-- {
+				pm += rng.Intn(12)
+				var save []string
+				for _, i := range padded {
+					if _, ok := v.sut.peer.pendingChunkMap[v.sut.u.get(i).chunk.id]; ok && rng.Chance(50) {
+						save = append(save, strconv.Itoa(i))
+					}
+				}
+				o.step(strings.TrimSpace(fmt.Sprintf("psetmin %d %s", pm, strings.Join(save, " "))))
+			}
+		}
 		ts := m
 		parent := 0
 		nblk := 1 + rng.Intn(2)
@@ -197,6 +233,9 @@ func TestVerifC35(t *testing.T) {
 			used := map[int]bool{}
 			for len(certs) < k {
 				i := 1 + rng.Intn(vValid)
+				if rng.Chance(v.r.N(4, 8)) {
+					i = vBig
+				}
 				if used[i] && !rng.Chance(8) {
 					continue
 				}
@@ -227,7 +266,12 @@ func TestVerifC35(t *testing.T) {
 						script = append(script, strconv.Itoa(1+rng.Intn(vValid)))
 					}
 				}
-				if rng.Chance(93) {
+				if usePeer && rng.Chance(70) {
+					script = append(script, "P")
+					if rng.Chance(50) {
+						script = append(script, strconv.Itoa(i))
+					}
+				} else if rng.Chance(93) {
 					script = append(script, strconv.Itoa(i))
 				}
 			}
